@@ -11,11 +11,25 @@ The hypotheses on a fitted rule (`Rule.Valid`) are NOT derived here from the fit
 driver evaluates on every fitted model the harness produces.
 -/
 import FairModel.Lemmas.Pmf
+import FairModel.Properties.C04
 
 namespace C10
 open Pmf
 
 /-! ### InterpolatedThresholder / ThresholdOptimizer -/
+
+/-- what the text LIFTED on every run from `_threshold_operation.py` / `_interpolated_thresholder.py`
+    (`Generated/ThresholderSrc.lean`, over which `Model/Pmf.lean` is defined) has to say for the theorems below:
+    strict comparisons with the threshold on the right, the interpolation and `p_ignore` mixing expressions, start value 0,
+    returned row `[1 - p, p]`, column 1 compared with the draw by `p >= u` -/
+theorem src_predict_path (s t p0 o0 p1 o1 pi c v p u : Rat) :
+    (ThresholderSrc.opGt s t = true ↔ t < s) ∧ (ThresholderSrc.opLt s t = true ↔ s < t) ∧
+    ThresholderSrc.interp p0 o0 p1 o1 = p0 * o0 + p1 * o1 ∧
+    ThresholderSrc.withIgnore pi c v = pi * c + (1 - pi) * v ∧
+    ThresholderSrc.initialProb s = 0 ∧ ThresholderSrc.col0 p = 1 - p ∧ ThresholderSrc.col1 p = p ∧
+    ThresholderSrc.probColumn = 1 ∧ (ThresholderSrc.drawsOne p u = true ↔ u ≤ p) :=
+  ⟨src_opGt s t, src_opLt s t, src_interp p0 o0 p1 o1, src_withIgnore pi c v, src_initialProb s, (src_cols p).1,
+   (src_cols p).2, src_probColumn, src_drawsOne p u⟩
 
 /-- the decidable predicate the driver evaluates is exactly the hypothesis used below -/
 theorem valid_decides (eps : Rat) (r : Rule) : r.valid eps = true ↔ r.Valid eps := valid_iff eps r
@@ -38,7 +52,7 @@ theorem thresholder_pmf_range (dict : List (String × Rule)) (g : String) (s : R
     rcases thrPositive_cases dict g s with h0 | ⟨e, he, _, h1⟩
     · rw [h0]; norm_num
     · rw [h1]; exact thresholder_rule_range e.2 s (h e he)
-  simp only [pmfRow]
+  simp only [pmfRow, (src_cols _).1, (src_cols _).2]
   refine ⟨hp.1, hp.2, by linarith, by linarith, by ring⟩
 
 /-- the same with the rounding slack of the fitted floats (`p0 = 1 - p1` up to `eps`) -/
@@ -56,8 +70,10 @@ theorem thresholder_selects_group (dict : List (String × Rule)) (g : String) (r
 
 /-- a group that has no rule keeps the initial `0.0` -/
 theorem thresholder_unseen_group (dict : List (String × Rule)) (g : String) (s : Rat)
-    (h : ∀ e ∈ dict, g ≠ e.1) : thrPositive dict g s = 0 :=
-  foldl_select_absent dict g s 0 h
+    (h : ∀ e ∈ dict, g ≠ e.1) : thrPositive dict g s = 0 := by
+  unfold thrPositive
+  rw [foldl_select_absent dict g s _ h]
+  exact src_initialProb s
 
 /-- **the pmf of a row depends only on its (group, score)**: neither on the other rows of the query
     set nor on its position -/
@@ -73,6 +89,7 @@ theorem pmf_monotone_noflip (eps : Rat) (dict : List (String × Rule)) (g : Stri
     (hv : ∀ e ∈ dict, e.2.Valid eps) (hgt : ∀ e ∈ dict, e.2.allGt = true) (hs : s ≤ s') :
     thrPositive dict g s ≤ thrPositive dict g s' := by
   unfold thrPositive
+  rw [src_initialProb s, src_initialProb s']
   apply foldl_select_mono dict g s s' 0 0 (le_refl 0)
   intro e he
   exact positive_mono eps e.2 s s' (hv e he) (hgt e he) hs
@@ -84,6 +101,110 @@ theorem flip_not_monotone :
   constructor
   · rw [← valid_iff]; decide +kernel
   · decide +kernel
+
+/-! ### the hypotheses above are MET by every model `ThresholdOptimizer.fit` produces
+
+`ThresholdPredict.dictOf names fit.rules` is the `interpolation_dict` stored by the fit (`Model/Threshold.lean`), with one
+Bunch per sensitive-feature value.  So for fitted models the range / monotonicity theorems hold unconditionally. -/
+
+open Threshold ThresholdGen ThresholdPredict in
+/-- every Bunch stored by a successful fit for a simple constraint is a valid rule, and all its operations are `>`
+    when `flip = False` -/
+theorem fitted_rules_valid_simple (flip : Bool) (xm ym : Metric) (N : Nat) (groups : List (List Row))
+    (force : Option Nat) (fit : Fit) (names : List String) (hN : 1 ≤ N) (hx : IsConstraintMetric xm)
+    (hfit : fitSimple flip xm ym N groups force = some fit) :
+    ∀ e ∈ dictOf names fit.rules, e.2.Valid 0 ∧ (flip = false → e.2.allGt = true) := by
+  obtain ⟨hulls, cs, best, hh, hc, hb, _, hrules, _, _⟩ := fitSimple_some hfit
+  obtain ⟨hi, hbest⟩ := List.getElem?_eq_some_iff.mp hb
+  obtain ⟨hrow, hent⟩ := curves_entry hx hh hN hc fit.iBest hi
+  have hlenh := (hullsOf_some hh).1
+  rw [hbest] at hrow hent
+  intro e he
+  obtain ⟨j, _, hj', hej⟩ := mem_dictOf he
+  have hjb : j < best.length := by rw [hrules] at hj'; simpa using hj'
+  obtain ⟨gc, hs⟩ := hent j (by omega) hjb (by omega)
+  have hr : fit.rules[j] = simpleRule best[j] := by simp [hrules]
+  rw [hej, hr]
+  refine ⟨valid_simple hs, ?_⟩
+  intro hf
+  subst hf
+  obtain ⟨g0, g1⟩ := interp_ops_gt gc hs
+  exact toPmfRule_allGt _ g0 g1
+
+open Threshold ThresholdGen ThresholdPredict in
+/-- the same for equalized odds: additionally `p_ignore ∈ [0,1]` and `prediction_constant = x_best ∈ [0,1]` -/
+theorem fitted_rules_valid_EO (flip : Bool) (obj : Metric) (N : Nat) (groups : List (List Row))
+    (force : Option Nat) (fit : Fit) (yBest : Rat) (names : List String) (hN : 1 ≤ N)
+    (hfit : fitEO flip obj N groups force = some (fit, yBest)) :
+    ∀ e ∈ dictOf names fit.rules, e.2.Valid 0 ∧ (flip = false → e.2.allGt = true) := by
+  obtain ⟨_, hiN, hrl, hpar⟩ := C04.parity_EO flip obj N groups force fit yBest hN hfit
+  obtain ⟨hulls, cs, ymins, best, hh, hc, _, hb, _, _, hrules, _, _⟩ := fitEO_some hfit
+  have hx := C04.eo_metric_is_constraint
+  obtain ⟨hi, hbest⟩ := List.getElem?_eq_some_iff.mp hb
+  obtain ⟨hrow, hent⟩ := curves_entry hx hh hN hc fit.iBest hi
+  have hlenh := (hullsOf_some hh).1
+  rw [hbest] at hrow hent
+  intro e he
+  obtain ⟨j, _, hj', hej⟩ := mem_dictOf he
+  have hjb : j < best.length := by rw [hrules] at hj'; simpa using hj'
+  obtain ⟨gc, hs⟩ := hent j (by omega) hjb (by omega)
+  have hr : fit.rules[j] = eoRule (gridVal N fit.iBest) yBest best[j] := by simp [hrules]
+  obtain ⟨pi, c, hign, hp0, hp1, hcv⟩ := (hpar j (by omega) hj').2.2
+  rw [hej]
+  refine ⟨valid_of _ (by rw [hr]; exact hs.p0_nonneg) (by rw [hr]; exact hs.p1_nonneg)
+    (by rw [hr]; exact hs.sum_one) ?_, ?_⟩
+  · intro pi' c' h'
+    rw [hign] at h'
+    simp only [Option.some.injEq, Prod.mk.injEq] at h'
+    obtain ⟨rfl, rfl⟩ := h'
+    exact ⟨hp0, hp1, by rw [hcv]; exact gridVal_nonneg N fit.iBest, by rw [hcv]; exact gridVal_le_one hN hiN⟩
+  · intro hf
+    subst hf
+    obtain ⟨g0, g1⟩ := interp_ops_gt gc hs
+    rw [hr]
+    exact toPmfRule_allGt _ g0 g1
+
+open Threshold ThresholdGen ThresholdPredict in
+/-- **end to end**: whatever was fitted (simple constraint or equalized odds), whatever the query rows (training rows,
+    unseen scores, scores equal to a threshold, unseen sensitive-feature values), `_pmf_predict` of the fitted model
+    returns rows `[1 - p, p]` with `0 ≤ p ≤ 1` -/
+theorem fitted_pmf_is_distribution (names : List String) (fit : Fit)
+    (hv : ∀ e ∈ dictOf names fit.rules, e.2.Valid 0) (rows : List (String × Rat)) :
+    ∀ row ∈ predictPmf names fit rows, 0 ≤ row.2 ∧ row.2 ≤ 1 ∧ 0 ≤ row.1 ∧ row.1 ≤ 1 ∧ row.1 + row.2 = 1 := by
+  intro row hrow
+  unfold predictPmf thrPmf at hrow
+  obtain ⟨q, _, rfl⟩ := List.mem_map.mp hrow
+  exact thresholder_pmf_range (dictOf names fit.rules) q.1 q.2 hv
+
+/-! ### `predict`: labels row by row from the draws -/
+
+open Threshold ThresholdPredict in
+/-- **for ANY sequence of draws** the `i`-th label of `predict` is the Bernoulli rule `[p_i ≥ u_i]` applied to the `i`-th
+    row's own reported probability and the `i`-th draw: rows are independent given the draws -/
+theorem predict_rowwise (names : List String) (fit : Fit) (rows : List (String × Rat)) (us : List Rat)
+    (i : Nat) (hi : i < rows.length) (hu : i < us.length) (h : i < (predictLabels names fit rows us).length) :
+    (predictLabels names fit rows us)[i] =
+      bernoulli (thrPositive (dictOf names fit.rules) rows[i].1 rows[i].2) us[i] :=
+  predictLabels_get names fit rows us i hi hu h
+
+open Threshold ThresholdPredict in
+/-- ... so the label of a row depends only on its own (group, score) and its own draw, not on the rest of the query
+    set or on the row's position -/
+theorem predict_row_independent (names : List String) (fit : Fit) (rows rows' : List (String × Rat))
+    (us us' : List Rat) (i j : Nat) (hi : i < rows.length) (hu : i < us.length) (hj : j < rows'.length)
+    (hu' : j < us'.length) (hrow : rows[i] = rows'[j]) (hdraw : us[i] = us'[j]) :
+    (predictLabels names fit rows us)[i]'(by rw [predictLabels_length]; omega) =
+    (predictLabels names fit rows' us')[j]'(by rw [predictLabels_length]; omega) := by
+  rw [predict_rowwise names fit rows us i hi hu, predict_rowwise names fit rows' us' j hj hu', hrow, hdraw]
+
+open Threshold ThresholdPredict in
+/-- one `predict` call on `n` rows consumes exactly `n` draws (`rand(len(positive_probs))`) and returns `n` labels; two
+    calls on the same rows consume the same number, whatever the seed -/
+theorem predict_draw_count (names : List String) (fit : Fit) (rows : List (String × Rat)) (us : List Rat)
+    (hus : us.length = drawsConsumed rows) :
+    drawsConsumed rows = rows.length ∧ (predictLabels names fit rows us).length = rows.length := by
+  refine ⟨rfl, ?_⟩
+  rw [predictLabels_length, hus]; simp [drawsConsumed]
 
 /-! ### ExponentiatedGradient, classification -/
 
